@@ -187,7 +187,7 @@ def check_offsets(run, db):
     for ct in ('memory_pool', 'memory_stack', 'memory_arena'):
         for f in db.find(cls_t=ct, short='min_block_size'):
             n += 1
-            rets, _ = ret_canon(db, f)
+            rets, _ = ret_canon(db, f, {0: 'node_size', 1: 'number_of_nodes'} if ct == 'memory_pool' else {0: 'byte_size'})
             r = rets[0] if rets else ''
             inst = '%s [%s]' % (f.display, db.config)
             okk = r.count('implementation_offset()') == 1 and r.startswith('(') and ' + ' in r and ' - ' not in r
